@@ -5,9 +5,17 @@
   sets (any triggers, awaits, weights, criticality, outcomes) and ALL environments
   (hence all histories that produced them). Tie to /repo: correspondence run through
   harness/envh with the trace monitor; the two pass predicates (`w < 0`, `w ≥ 0`) are
-  exercised by negative, zero and positive weights in every run.
+  exercised by negative, zero and positive weights in every run; the sources of a pass's weights and the three
+  entries to handleHooks are read off the source (go/ast, Gen/C08Facts.lean: `C08_pass_weights_are_code`).
+
+  `Model/Env.lean` is the code as it is — since "fix: handleHooks visits the await weight of a call it starts at
+  the same trigger" a pass knows, before it starts anything, at which weights the calls it is about to start
+  declare their await (`C08_await_same_moment_code`). The code as it was is `handleHooksOf legacyAwaitCfg` /
+  `stepOf legacyAwaitCfg` (Model/EnvLegacy.lean): the former refutation is a statement about that machine.
 -/
 import ControlModel.Proofs.EnvHooks
+import ControlModel.Proofs.EnvRunOnce
+import ControlModel.Gen.C08Facts
 
 open EnvM
 
@@ -96,25 +104,106 @@ theorem C08_moment_order (env : Env) (hooks : List Hook) (e : Ev) (b r : Bool) (
     marksOf (fsmEvent env hooks e b r).2.1 <+: markPattern e env.st d :=
   fsmEvent_marks env hooks e b r d hd
 
-/-- FULL-STRENGTH await statement (kept visible; FALSE of the code, see the finding):
-    a call started in a pass and awaiting a LATER weight of the same moment and pass is
-    collected before that pass of the moment is over, unless a critical failure stopped it. -/
-def C08_await_same_moment_full : Prop :=
+/-- FULL-STRENGTH await statement, over a pass `pass` (what one handleHooks call does): a call started in a pass
+    and awaiting a LATER weight of the same moment and pass is collected before that pass of the moment is over,
+    unless a critical failure stopped it — whatever is still pending at its await point afterwards was started
+    ABOVE that point (`StartedAfter`: a call of this moment that declares its await below its own trigger weight;
+    such a call is registered when the point has been handled already, in every implementation that visits
+    weights in ascending order, so "nothing at all is pending there" would be false of any of them). -/
+def C08_await_same_moment_full_of (pass : Env → List Hook → Moment → (Int → Bool) → Env × List Step × Nat) : Prop :=
   ∀ (env : Env) (hooks : List Hook) (m : Moment) (p : Int → Bool) (h : Hook),
     h ∈ hooks → h.isTask = false → h.trig = m → h.await = m → h.tw < h.aw → p h.tw = true → p h.aw = true →
-    (handleHooks env hooks m p).2.2 = 0 →
-    (pendingAt (handleHooks env hooks m p).1 m h.aw).isEmpty = true
+    (pass env hooks m p).2.2 = 0 →
+    ∀ i ∈ pendingAt (pass env hooks m p).1 m h.aw, StartedAfter hooks m h.aw i
 
-/-- The known finding `await_weight_not_visited`, machine-checked on the model: the weights
-    of a pass are fixed BEFORE anything is started (`weightsFor`), so a call triggered at
-    before_CONFIGURE+0 that awaits before_CONFIGURE+10 is not collected there when no other
-    hook lives at +10 — the state machine moves past its await point. -/
-theorem C08_finding_await_weight_not_visited : ¬ C08_await_same_moment_full := by
+/-- …for the code as it is (`handleHooks`, Model/Env.lean). It was FALSE of the code before the repair
+    (`C08_finding_await_weight_not_visited`) and is TRUE of the code now (`C08_await_same_moment_code`). -/
+def C08_await_same_moment_full : Prop := C08_await_same_moment_full_of handleHooks
+
+/-- **Awaited where declared, for the code as it is** — the former full-strength statement, now a theorem: for
+    ALL environments, hook sets, moments and passes, a call hook triggered at the moment whose await names the
+    same moment with a weight of the same pass has its await point VISITED by the pass that starts it (the await
+    weights are among the weights of the pass before anything is started: `mem_weightsFor_of_await`), so when
+    the pass ends without a critical failure no instance of it — this execution or an older one — is left
+    pending there. (Needs neither `h.tw < h.aw` nor `p h.tw`: the point is visited whenever it lies in the pass.) -/
+theorem C08_await_same_moment_code : C08_await_same_moment_full := by
+  intro env hooks m p h hmem hcall htrig hawait _ _ hpa h0
+  exact handleHooks_await_same_moment env hooks m p h hmem hcall htrig hawait hpa h0
+
+/-- The literal former conclusion — NOTHING is pending at the await point when the pass is over — for every hook
+    set in which no call of the moment awaits at that weight from above. -/
+theorem C08_await_same_moment_nothing_left (env : Env) (hooks : List Hook) (m : Moment) (p : Int → Bool) (h : Hook)
+    (hmem : h ∈ hooks) (hcall : h.isTask = false) (htrig : h.trig = m) (hawait : h.await = m) (hpa : p h.aw = true)
+    (hback : ∀ g ∈ hooks, g.isTask = false → g.trig = m → g.await = m → g.aw = h.aw → g.tw ≤ g.aw)
+    (h0 : (handleHooks env hooks m p).2.2 = 0) :
+    pendingAt (handleHooks env hooks m p).1 m h.aw = [] := by
+  have hall := handleHooks_await_same_moment env hooks m p h hmem hcall htrig hawait hpa h0
+  cases hpend : pendingAt (handleHooks env hooks m p).1 m h.aw with
+  | nil => rfl
+  | cons i rest =>
+    obtain ⟨g, hg, _, hgc, hgt, hga, hgw, hlt⟩ := hall i (by rw [hpend]; exact List.mem_cons_self)
+    have := hback g hg hgc hgt hga hgw
+    omega
+
+/-- The finding `await_weight_not_visited` (repaired by "fix: handleHooks visits the await weight of a call it
+    starts at the same trigger"), machine-checked on the model of the code AS IT WAS (`handleHooksOf
+    legacyAwaitCfg`, Model/EnvLegacy.lean): the weights of a pass were the trigger weights and the weights of calls
+    ALREADY pending, fixed before anything was started, so a call triggered at before_CONFIGURE+0 that awaits
+    before_CONFIGURE+10 was not collected there when no other hook lived at +10 — the state machine moved past
+    its await point. -/
+theorem C08_finding_await_weight_not_visited : ¬ C08_await_same_moment_full_of (handleHooksOf legacyAwaitCfg) := by
   intro h
   have := h {} [{ id := 0, isTask := false, critical := true, trig := .before .CONFIGURE, tw := 0,
                   await := .before .CONFIGURE, aw := 10, outcomes := [] }]
             (.before .CONFIGURE) posW _ (List.mem_singleton.mpr rfl) rfl rfl rfl (by decide) (by decide) (by decide) (by decide)
   revert this; decide
+
+/-- The machine the refutation is about IS the model of the code, but for the weights of a pass: with the switch
+    on, `stepOf` is `step` and `handleHooksOf` is `handleHooks`; and the weights of a pass as it is are those of
+    the pass as it was PLUS the await weights (within the pass) of the call hooks triggered at this moment whose
+    await names this moment — nothing else. -/
+theorem C08_legacy_differs_only_in_pass_weights :
+    stepOf codeRunCfg = step ∧ handleHooksOf codeRunCfg = handleHooks ∧
+    ∀ (env : Env) (hooks : List Hook) (m : Moment) (p : Int → Bool) (w : Int),
+      w ∈ weightsFor env hooks m p ↔
+        (w ∈ weightsForOf legacyAwaitCfg env hooks m p ∨
+          (p w = true ∧ ∃ h ∈ hooks, h.isTask = false ∧ h.trig = m ∧ h.await = m ∧ h.aw = w)) := by
+  refine ⟨stepOf_code, handleHooksOf_code, ?_⟩
+  intro env hooks m p w
+  simp only [weightsForOf, legacyAwaitCfg, weightsFor, weightsForLegacy, List.mem_filter, mem_sortDedup, List.mem_append,
+    List.mem_map, Bool.false_eq_true, if_false]
+  constructor
+  · rintro ⟨(⟨h1 | ⟨g, hg, hgw⟩⟩ | h3), hp⟩
+    · exact Or.inl ⟨Or.inl h1, hp⟩
+    · have hg' := hg.2
+      simp only [decide_eq_true_eq, Bool.decide_and, Bool.and_eq_true, Bool.not_eq_eq_eq_not, Bool.not_true] at hg'
+      exact Or.inr ⟨hp, g, hg.1, hg'.2.1, hg'.1, hg'.2.2, hgw⟩
+    · exact Or.inl ⟨Or.inr h3, hp⟩
+  · rintro (⟨h1 | h3, hp⟩ | ⟨hp, g, hg, hc, ht, ha, hw⟩)
+    · exact ⟨Or.inl (Or.inl h1), hp⟩
+    · exact ⟨Or.inr h3, hp⟩
+    · exact ⟨Or.inl (Or.inr ⟨g, ⟨hg, by simp [hc, ht, ha]⟩, hw⟩), hp⟩
+
+/-- The weights of a pass in the model are filled from the sources the code fills them from (go/ast over
+    core/environment/environment.go, re-read on every run, Gen/C08Facts.lean): before `allWeights :=
+    allWeightsSet.GetWeights()` handleHooks writes the set from (1) the weights of the hooks triggered now
+    (`hw` of `weightsFor`), (2) for each CALL among them (`FilterCalls()` = `!h.isTask`) whose parsed await
+    expression names this trigger (`awaitName == trigger` = `h.await = m`) its await weight (`aw`), and (3) the
+    weights of the calls already pending an await here (`pw`) — with the repair reverted row (2) is gone and the
+    table is `weightSources legacyAwaitCfg`; the visited weights are that set, sorted, restricted by the pass
+    predicate, and the four-phase loop ranges over exactly those (`handleHooks` = `handleWeights … (weightsFor …)`);
+    and the three entries to handleHooks do nothing but log, time and call it, with the predicates `true`
+    (`allW`), `w < 0` (`negW`), `w >= 0` (`posW`) — none of them can skip a pass. -/
+theorem C08_pass_weights_are_code :
+    Gen.C08Facts.weightSources = weightSources codeRunCfg ∧
+    weightSources legacyAwaitCfg ≠ weightSources codeRunCfg ∧
+    Gen.C08Facts.weightsFromSet = true ∧ Gen.C08Facts.loopOverFiltered = true ∧
+    Gen.C08Facts.wrappers =
+      [("handleAllHooks", "true", ["log", "defer timetrack", "return handleHooks"]),
+       ("handleHooksWithNegativeWeights", "w < 0", ["log", "defer timetrack", "return handleHooks"]),
+       ("handleHooksWithPositiveWeights", "w >= 0", ["log", "defer timetrack", "return handleHooks"])] ∧
+    (∀ w : Int, allW w = true ∧ (negW w = true ↔ w < 0) ∧ (posW w = true ↔ w ≥ 0)) :=
+  ⟨by rfl, by decide, by rfl, by rfl, by rfl, fun w => ⟨rfl, by simp [negW], by simp [posW]⟩⟩
 
 /-- "…or cancelled at teardown if its await point is never reached": a teardown that goes through
     (result ok, or only the leftover error of its leave hooks) leaves NO result waiting to be collected —
@@ -172,3 +261,26 @@ example :
       { id := 1, isTask := true, critical := false, trig := .before .CONFIGURE, tw := 0, await := .before .CONFIGURE, aw := 0, outcomes := [] },
       { id := 2, isTask := false, critical := true, trig := .before .CONFIGURE, tw := 5, await := .after .CONFIGURE, aw := 0, outcomes := [] }]
     stepWeights (handleHooks {} hooks (.before .CONFIGURE) posW).2.1 = [0, 5, 5] := by decide
+
+/-- The witness of the repaired finding, end to end on a fresh environment: a call triggered at after_DEPLOY+0
+    that awaits after_DEPLOY+100, nothing else at +100; DEPLOY, then CONFIGURE. The code as it is collects the
+    call inside DEPLOY (one await step at weight 100, nothing pending after either request); the code as it was
+    finished DEPLOY — and CONFIGURE — with the call still registered under after_DEPLOY+100. -/
+example :
+    let hooks : List Hook := [
+      { id := 0, isTask := false, critical := true, trig := .after .DEPLOY, tw := 0, await := .after .DEPLOY, aw := 100, outcomes := [] }]
+    let reqs : List Req := [.try_ .DEPLOY true false, .try_ .CONFIGURE true false]
+    ((runSeq hooks 0 {} reqs).map fun r => (uncollected r.2.2).length) = [0, 0] ∧
+    ((runSeq hooks 0 {} reqs).map fun r => r.1.filterMap fun | .await _ w is => some (w, is.map (·.hook)) | _ => none) = [[(100, [0])], []] ∧
+    (uncollected (stepOf legacyAwaitCfg hooks 0 {} (.try_ .DEPLOY true false)).1).length = 1 ∧
+    (uncollected (finalEnvOf legacyAwaitCfg hooks 0 {} reqs)).length = 1 := by decide
+
+/-- Non-vacuity of `StartedAfter`: with a second call of the moment that awaits at +10 from +20, the pass visits
+    +10 (collecting the first call there), starts the second at +20 and ends with exactly that one registered at
+    +10 — where it is collected at the next occurrence of the moment, as before the repair. -/
+example :
+    let hooks : List Hook := [
+      { id := 0, isTask := false, critical := true, trig := .before .CONFIGURE, tw := 0, await := .before .CONFIGURE, aw := 10, outcomes := [] },
+      { id := 1, isTask := false, critical := true, trig := .before .CONFIGURE, tw := 20, await := .before .CONFIGURE, aw := 10, outcomes := [] }]
+    (pendingAt (handleHooks {} hooks (.before .CONFIGURE) posW).1 (.before .CONFIGURE) 10).map (·.hook) = [1] ∧
+    (pendingAt (handleHooksOf legacyAwaitCfg {} hooks (.before .CONFIGURE) posW).1 (.before .CONFIGURE) 10).map (·.hook) = [0, 1] := by decide
